@@ -185,8 +185,29 @@ pub fn json_large_documents() {
 #[cfg(kani)]
 pub fn json_large_documents() {}
 
+/// strings (and keys) whose TEXT looks like another kind of JSON value, or needs escaping: they stay strings through both routes
+#[cfg(not(kani))]
+pub fn json_string_values() {
+    rec::reset();
+    const POOL: [&str; 18] = ["42", "-0", "1e3", "1.20", "75011", "true", "false", "null", "[]", "{}", " 1", "0x10", "NaN", "\"q\"", "\u{1f980}", "a\u{0}b", "-", "18446744073709551616"];
+    let s = POOL[nd::below(18) as usize].to_string();
+    let long: String = std::iter::repeat('7').take(100).collect();
+    let s = if nd::below(19) == 0 { long } else { s };
+    let doc: JValue = match nd::below(5) { 0 => JValue::String(s), 1 => JValue::Array(vec![JValue::String(s)]), 2 => serde_json::json!({ "k": s }), 3 => { let mut m = serde_json::Map::new(); m.insert(s.clone(), JValue::String(s)); JValue::Object(m) }
+                                          _ => serde_json::json!([{ "k": [s] }]) };
+    oblige!(kinds_agree(&doc), "C13:kind_without_consuming_equals_kind_of_the_consumed_view");
+    let back = JValue::from(doc.clone().into_value());
+    oblige!(same_doc(&back, &doc), "C13:from_value_gives_back_the_same_document");
+    match deserr::deserialize::<JValue, JValue, Rec>(doc.clone()) {
+        Ok(j) => { oblige!(same_doc(&j, &doc) && rec::calls() == 0, "C13:deserr_impl_gives_back_the_same_document"); }
+        Err(_) => { oblige!(false, "C13:deserr_impl_never_fails_on_a_document_serde_json_can_hold"); }
+    }
+}
+#[cfg(kani)]
+pub fn json_string_values() {}
+
 pub fn registry() -> Vec<(&'static str, crate::Body)> {
-    vec![("json_u64", json_u64 as crate::Body), ("json_i64", json_i64), ("json_f64", json_f64), ("json_null_bool", json_null_bool), ("json_documents", json_documents), ("json_large_documents", json_large_documents)]
+    vec![("json_u64", json_u64 as crate::Body), ("json_i64", json_i64), ("json_f64", json_f64), ("json_null_bool", json_null_bool), ("json_documents", json_documents), ("json_large_documents", json_large_documents), ("json_string_values", json_string_values)]
 }
 
 #[cfg(kani)]
